@@ -35,6 +35,12 @@ RULE = ('Also: an outgoing listener disconnecting after the d-th '
         'the exit callback once, reports no error (K4). Non-trivial: >= 3 '
         'reply-requiring packets of >= 2 kinds with an unknown frame between '
         'them, or length >= 51; distinct by case fingerprint.')
+RULE += (' ' +
+         'Added in later rounds: histories entered through version '
+         'negotiation; two logged-in connections at once; repeated sessions '
+         'on one object; write errors; kick reasons of every JSON shape '
+         'incl. nesting 3000-60000 deep, unbalanced and 70 kB long; unknown '
+         'frames of exactly threshold-1/threshold/threshold+1 bytes. ')
 LEVEL_TEXT = ('Model-based testing of the play-state reactions over '
               'generated server histories x versions x compression x '
               'delivery patterns on an in-memory network.')
